@@ -1,1 +1,14 @@
-fn main() {}
+//! vx_misc: see /verif/harness/AGENTS-GUIDE.md; one module per property, dispatched on the property id.
+
+use vcore::{machinery_error, Ctx};
+
+fn main() {
+    let ctx = Ctx::from_args();
+    vcore::quiet_panics();
+    #[allow(clippy::match_single_binding)]
+    let out: vcore::Outcome = match ctx.id.as_str() {
+        other => machinery_error(&format!("vx_misc does not implement {other}")),
+    };
+    #[allow(unreachable_code)]
+    vcore::finish(&ctx, out);
+}
